@@ -142,6 +142,30 @@ def run (t : Tier) : Emit Unit := do
             let a' := { a with transportPrivateDataLength := stale, length := 0 }
             let p' := { p with adaptationField := some a' }
             emit "C11" (writeCase p' (some s!"ok:n=188:{hex bs}") "write-stale-length-fields")
+  -- (5c) HasPayload false although the struct holds payload bytes; HasAdaptationField false although it holds an
+  --      adaptation field: what the flags say is what is written
+  for _ in [0:40 * t.scale] do
+    let p ← liftGen genPacket
+    if p.header.hasAdaptationField && !(p.adaptationField.map (·.isOneByteStuffing)).getD true then
+      let pl ← liftGen (randBytes 20)
+      emit "C11" (writeCase { p with header := { p.header with hasPayload := false }, payload := pl } none "write-flags-contradict-struct")
+    if !p.header.hasAdaptationField then
+      let a ← liftGen (genAF 7)
+      emit "C11" (writeCase { p with adaptationField := some a } none "write-flags-contradict-struct")
+  -- (5d) adaptation fields whose inner lengths run past the adaptation field or the packet: private data length
+  --      150..183 and 255 in front of an extension, every adaptation_field_length that cuts it, four fillers
+  for l in (List.range 34).map (· + 150) ++ [255, 0] do
+    for afl in [183, l + 2, l + 3, l + 4, l + 6, 1, 2] do
+      for fill in [0xff, 0x00, 0x01, 0xe0] do
+        if afl ≤ 183 then
+          let bs : Bytes := [0x47, 0x01, 0x00, 0x20, afl, 0x03, l] ++ List.replicate 181 fill
+          emit "C11" (parseCase bs none "parse-af-inner-lengths")
+  -- the same for the extension alone: its length byte 0..12, every flags combination, three adaptation field lengths
+  for el in [0:13] do
+    for fl in [0:8] do
+      for afl in [2 + el, 3 + el, 183] do
+        let bs : Bytes := [0x47, 0x01, 0x00, 0x20, afl, 0x01, el, fl * 32 + 0x1f] ++ (List.range 180).map (· % 251 + 1)
+        emit "C11" (parseCase bs none "parse-af-extension-lengths")
   -- (6) malformed input: mutations of conformant packets and random bytes (model only: never a panic)
   for _ in [0:400 * t.scale] do
     let p ← liftGen genPacket
